@@ -47,6 +47,9 @@ type view struct {
 	// freshSpent: outpoints consumed by earlier transactions of the block
 	// being assembled (what a Byzantine miner re-spends inside one block).
 	freshSpent []spentRec
+	// withdrawn: side-chain transaction hashes withdrawn on this chain (C33)
+	// (1: by an earlier block, 2: by an earlier transaction of the block being assembled)
+	withdrawn map[common.Uint256]int8
 }
 
 type spentRec struct {
@@ -55,7 +58,7 @@ type spentRec struct {
 }
 
 func newView() *view {
-	return &view{utxo: map[outpoint]mOut{}, spent: map[outpoint]common.Uint256{}, txs: map[common.Uint256]uint32{}, minted: new(big.Int), subsidy: new(big.Int)}
+	return &view{utxo: map[outpoint]mOut{}, spent: map[outpoint]common.Uint256{}, txs: map[common.Uint256]uint32{}, minted: new(big.Int), subsidy: new(big.Int), withdrawn: map[common.Uint256]int8{}}
 }
 
 func (v *view) clone() *view {
@@ -68,6 +71,9 @@ func (v *view) clone() *view {
 	}
 	for k, x := range v.txs {
 		n.txs[k] = x
+	}
+	for k := range v.withdrawn {
+		n.withdrawn[k] = 1
 	}
 	n.minted.Set(v.minted)
 	n.subsidy.Set(v.subsidy)
@@ -148,6 +154,7 @@ type txFacts struct {
 	outs     []int64
 	signedBy map[int]bool // actors whose valid signature over exactly this content is attached with matching code
 	tampered bool
+	wd       *wdFacts // non-nil: a side-chain withdrawal (withdraw.go)
 }
 
 // labelTx returns "" when the transaction is valid on this view at this block
@@ -218,6 +225,15 @@ func applyTx(v *view, id common.Uint256, f *txFacts, outsPH []mOut, height uint3
 		}
 	}
 	v.txs[id] = height
+	if f.wd != nil {
+		for _, h := range f.wd.hashes {
+			if v.fresh != nil {
+				v.withdrawn[h] = 2
+			} else {
+				v.withdrawn[h] = 1
+			}
+		}
+	}
 }
 
 func fmtOut(o outpoint) string { return fmt.Sprintf("%x:%d", o.tx[:4], o.idx) }
